@@ -54,7 +54,7 @@ impl Limits {
         if matches!(img.stack, 0 | 16 | 32 | 48 | 64) {
             self.stack = img.stack;
         }
-        self.limit = Some(img.effective_limit());
+        self.limit = img.limit_after(self.limit);
     }
 }
 
@@ -347,7 +347,7 @@ fn absorb_list(rng: &mut Rng) -> Vec<Stim> {
 impl C05 {
     fn sweep_case(bytes: Vec<u8>, stack: u8, limit: Option<u8>, regs: Option<[u8; 8]>, edges: u32) -> Scn {
         Scn {
-            seq: SeqScn { setup: Setup { image: Image { bytes, stack, limit }, regs, pokes: vec![], inputs: [0; 4], asm_mode: false }, events: vec![], max_edges: edges },
+            seq: SeqScn { setup: Setup { image: Image { bytes, stack, limit, keep_limit: false }, regs, pokes: vec![], inputs: [0; 4], asm_mode: false }, events: vec![], max_edges: edges },
             absorb: vec![Stim::KeyInt, Stim::Continue, Stim::InReg(0, 0xFF)],
         }
     }
@@ -390,7 +390,7 @@ impl Check for C05 {
                 6 => Stim::BusWrite(rng.below(0xF0) as u8, rng.below(3) as u8),
                 7 => {
                     let (b, st, l) = family(rng);
-                    Stim::Load(Image { bytes: b, stack: if rng.chance(1, 5) { 99 } else { st }, limit: l })
+                    Stim::Load(Image { bytes: b, stack: if rng.chance(1, 5) { 99 } else { st }, limit: l, keep_limit: rng.chance(1, 4) })
                 }
                 8 => Stim::MasterReset,
                 _ => random_stim(rng, false),
@@ -400,7 +400,7 @@ impl Check for C05 {
         events.sort_by_key(|e| e.0);
         // a program whose limit is 0 with AUTO etc. may start with PC invalid only through load; PC = 0 is always legal
         Scn {
-            seq: SeqScn { setup: Setup { image: Image { bytes, stack, limit }, regs, pokes: vec![], inputs: [rng.u8(), rng.u8(), rng.u8(), rng.u8()], asm_mode: false }, events, max_edges },
+            seq: SeqScn { setup: Setup { image: Image { bytes, stack, limit, keep_limit: false }, regs, pokes: vec![], inputs: [rng.u8(), rng.u8(), rng.u8(), rng.u8()], asm_mode: false }, events, max_edges },
             absorb: absorb_list(rng),
         }
     }
